@@ -507,7 +507,7 @@ def undischarged_ranges(f):
 _ARITH = re.compile(r'saturating_|wrapping_|checked_|::len$|::min$|::max$|::from$|::into$|try_from$|::unwrap\w*$|::expect$|Try>::branch$|from_residual$')
 
 
-def size_policies(f):
+def size_policies(f, lenient=False):
     """comparisons `data-derived size  <,>  bound` where the bound is made of constants (and other lengths) only — a size policy
     of this function, as opposed to a comparison with the file length, a configured field or a parameter, or format arithmetic
     with small constants (< 64). Returns [(line, op, frozenset(constant strings))]."""
@@ -528,7 +528,7 @@ def size_policies(f):
             O = A.backward_slice(f, [rv[oi]], defs)
             # a bound may depend on the length of another buffer (a ratio policy), not on a scalar / config parameter
             scalar_params = [p_ for p_ in O.params if not re.search(r'\[|Vec<|str\b|Bytes', f.locals[p_])]
-            if O.fields or scalar_params or [x for x in O.calls if not _ARITH.search(x)]:
+            if not lenient and (O.fields or scalar_params or [x for x in O.calls if not _ARITH.search(x)]):
                 continue
             consts = set(O.consts)
             if rv[oi][0] == 'k':
@@ -548,7 +548,8 @@ def reader_only_policies(reader_fns, writer_fns):
     """size policies applied by a reader that no writer applies (matched by the constants involved)"""
     wconsts = set()
     for g in writer_fns:
-        for (_, _, cs) in size_policies(g):
+        # on the writer side any size comparison whose bound involves the constant counts (min(limit, CONST), …)
+        for (_, _, cs) in size_policies(g, lenient=True):
             wconsts |= set(cs)
     out = []
     n = 0
